@@ -75,8 +75,12 @@ impl AsyncOverlayFS {
         let whiteout_path = self.whiteout_path(path)?;
         if whiteout_path.exists().await? {
             match whiteout_path.remove_file().await {
-                // cleared concurrently by another creator of the same entry
-                Err(error) if matches!(error.kind(), VfsErrorKind::FileNotFound) => {}
+                // cleared concurrently by another creator of the same entry - if it really is gone
+                Err(error) if matches!(error.kind(), VfsErrorKind::FileNotFound) => {
+                    if whiteout_path.exists().await? {
+                        return Err(error);
+                    }
+                }
                 other => other?,
             }
         }
